@@ -68,3 +68,24 @@ V("C08", "double_scaling", "violation", (EIG, "nTf = np.ones(self.nz_counts)", "
 V("C08", "reorder_no_advance", "violation", (EIG, "                swaps.append((ii, bidx))\n                bidx += 1\n", "                swaps.append((ii, bidx))\n"), rule="C08.reorder")
 V("C08", "benign_pfactor_rename", "silent", (EIG, "        for item in range(n_state):\n            pfactor[item, :] /= W_abs[item]", "        for k in range(n_state):\n            pfactor[k, :] /= W_abs[k]"))
 V("C08", "benign_reduce_commuted_sum", "silent", (EIG, "self.fxy = (fx - fy * self.gyx)", "self.fxy = (-(fy * self.gyx) + fx)"))
+
+# ---------------- C16 / C17
+SS = "andes/linsolvers/suitesparse.py"
+SC = "andes/linsolvers/scipy.py"
+V("C16", "retry_drops_result", "violation", (SS, "            self.F = self._symbolic(self.A)\n\n            return self.solve(self.A, self.b)", "            self.F = self._symbolic(self.A)\n            self.solve(self.A, self.b)\n\n            return np.ravel(self.b)"), rule="C16.factorise")
+V("C16", "klu_linsolve_returns_rhs", "violation", (SS, "            klu.linsolve(A, b)\n        except ArithmeticError:\n            logger.error('Singular matrix. Case is not solvable')\n            return np.ravel(matrix(np.nan, b.size, 'd'))", "            klu.linsolve(A, b)\n        except ArithmeticError:\n            logger.error('Singular matrix. Case is not solvable')"), rule="C16.singular")
+V("C16", "solve_skips_numeric", "violation", (SS, "            self.N = self._numeric(self.A, self.F)\n            self._solve(self.A, self.F, self.N, self.b)", "            if self.N is None:\n                self.N = self._numeric(self.A, self.F)\n            self._solve(self.A, self.F, self.N, self.b)"), rule="C16.factorise")
+V("C16", "spsolve_ignores_new_A", "violation", (SC, "        if self.factorize or self.new_A:", "        if self.factorize:"), rule="C16.factorise")
+V("C16", "ccs_swapped", "violation", (SC, "    indices = np.array(ccs[1]).ravel()\n    indptr = np.array(ccs[0]).ravel()", "    indices = np.array(ccs[0]).ravel()\n    indptr = np.array(ccs[1]).ravel()"), rule="C16.ccs")
+V("C16", "pflow_no_refresh_flag", "violation", (PFLOW, "            system.j_update(self.models)\n            self.solver.worker.new_A = True", "            system.j_update(self.models)"), rule="C16.refresh")
+V("C16", "umfpack_solve_args", "violation", (SS, "        umfpack.solve(A, N, b)", "        umfpack.solve(A, F, b)"), rule="C16.factorise")
+V("C16", "benign_singular_helper", "silent", (SS, "            return np.ravel(matrix(np.nan, self.b.size, 'd'))", "            nan_vec = matrix(np.nan, self.b.size, 'd')\n            return np.ravel(nan_vec)"))
+V("C17", "pflow_no_elements_silent", "violation", (PFLOW, "            logger.error(\"Loaded case contains no power flow element.\")\n            system.exit_code = 1\n            return False", "            logger.error(\"Loaded case contains no power flow element.\")\n            return False"), rule="C17.exit")
+V("C17", "tds_success_without_tf", "violation", (TDS, "        elif system.dae.t == self.config.tf:\n            succeed = True   # success flag", "        elif system.dae.t >= 0:\n            succeed = True   # success flag"), rule="C17.success")
+V("C17", "tds_else_no_exit", "violation", (TDS, "            self.pbar.update(100 - self.last_pc)\n        else:\n            system.exit_code += 1", "            self.pbar.update(100 - self.last_pc)\n        else:\n            pass"), rule="C17.exit")
+V("C17", "test_init_loose", "violation", (TDS, "        if np.max(np.abs(system.dae.fg)) < self.config.tol:", "        if np.max(np.abs(system.dae.fg)) < 1.0:"), rule="C17.success")
+V("C17", "tds_gate_removed", "violation", (TDS, "        if system.PFlow.converged is False:\n            logger.warning('Power flow not solved. Simulation will not continue.')\n            system.exit_code += 1\n            return succeed", "        if system.PFlow.converged is False:\n            logger.warning('Power flow not solved. Simulation will not continue.')"), rule="C17.gate")
+V("C17", "eig_precheck_continues", "violation", ("andes/routines/eig.py", "            logger.warning('Power flow not solved. Eig analysis will not continue.')\n            return False", "            logger.warning('Power flow not solved. Eig analysis will not continue.')\n            status = False"), rule="C17.gate")
+V("C17", "main_none_system_ok", "violation", ("andes/main.py", "        if system is not None:\n            ex_code += system.exit_code\n        else:\n            ex_code += 1", "        if system is not None:\n            ex_code += system.exit_code"), rule="C17.aggregate")
+V("C17", "nk_except_success", "violation", (PFLOW, "            logger.error(e)\n            self.converged = False", "            logger.error(e)\n            self.converged = True"), rule="C17.success")
+V("C17", "benign_exit_code_value", "silent", (PFLOW, "            system.exit_code = 1\n            return False", "            system.exit_code = 2\n            return False"))
